@@ -36,6 +36,8 @@ type session struct {
 	ew    bool
 }
 
+var sessions int
+
 func capsMask(rgb, su, ew, sync, uc bool) uint32 {
 	var m uint32
 	if rgb {
@@ -75,22 +77,38 @@ func newSession(r *hx.Run, rng *gen.Rng, id string, w, h int, rgb, su, ew, sync,
 	emu.OSC8 = true
 	emu.Focus()
 	fc := fakeconsole.New(w, h, fakeconsole.Caps{})
+	// every sequence Vaxis writes during start-up, with the reply the emulator gave to it
+	var startup [][2]string
+	recording := true
 	fc.Respond = func(c *fakeconsole.Console, p []byte) []byte {
 		parser := ansi.NewParser(bytes.NewReader(p))
+		var all []byte
 		for seq := range parser.Next() {
 			if _, ok := seq.(ansi.EOF); ok {
 				break
 			}
 			emu.VerifFeed(seq)
+			rep := emu.VerifTakeReplies()
+			if recording {
+				op := emuh.OpLine(seq)
+				if strings.HasPrefix(op, "dcs") {
+					op = "dcs"
+				}
+				if op != "c0 0" { // padding NULs of the console buffer
+					startup = append(startup, [2]string{op, hx.Hex(rep)})
+				}
+			}
+			all = append(all, rep...)
 			parser.Finish(seq)
 		}
-		return []byte(emu.VerifTakeReplies())
+		return all
 	}
 	vx, err := vaxis.New(vaxis.Options{WithConsole: fc, NoSignals: true})
 	if err != nil {
 		return nil, err
 	}
 	fc.Take()
+	recording = false
 	hfc := fakeconsole.New(w, h, fakeconsole.FromMask(1<<6|1<<7)) // host: RGB + styled underlines, size from the console
 	host, err := vaxis.New(vaxis.Options{WithConsole: hfc, NoSignals: true})
 	if err != nil {
@@ -108,6 +126,17 @@ func newSession(r *hx.Run, rng *gen.Rng, id string, w, h int, rgb, su, ew, sync,
 			det = append(det, '0')
 		}
 	}
+	// the reply exchange: query by query (model of the emulator's reply writers vs the real replies),
+	// then the capabilities Vaxis derived (model of handleSequence/New on the modelled replies vs real)
+	// (the exchange does not depend on the history that follows: every 8th session records it)
+	if sessions%8 == 0 {
+		r.Emit(fmt.Sprintf("emuqstart %d %d", w, h), "-")
+		for _, q := range startup {
+			r.Emit("emuquery "+q[0], q[1])
+		}
+		r.Count("reply-exchange-recorded")
+	}
+	sessions++
 	r.Emit("emucaps", string(det))
 	s.ew = c["explicitWidth"]
 	r.Emit(fmt.Sprintf("caps %d %d %d %d", b01(c["rgb"]), b01(c["styledUnderlines"]), b01(c["explicitWidth"]), b01(c["synchronizedUpdate"])), "-")
